@@ -483,6 +483,27 @@ func (it *stringIter) next(r *Run) tuple {
 	return okv
 }
 
+// vecIter ranges over a vector string: one element per step (a rune vector's code points; a byte
+// vector's bytes, which the caller has made sure are ASCII, so that byte = code point).
+type vecIter struct {
+	v   runesV
+	pos int
+}
+
+func (it *vecIter) next(r *Run) tuple {
+	if it.pos >= len(it.v.cps) {
+		return tuple{false, 0, rune(0)}
+	}
+	c := it.v.cps[it.pos]
+	var cv value = c
+	if c.IsConst() {
+		cv = rune(c.I)
+	}
+	i := it.pos
+	it.pos++
+	return tuple{true, i, cv}
+}
+
 // mapIter iterates over a snapshot of the entries in an order chosen by the run
 // (every permutation is explored when order exploration is on).
 type mapIter struct {
